@@ -226,7 +226,10 @@ pub fn generate(rng: &mut Rng, tier: Tier, stats: &mut GenStats) -> Scenario {
     let mut tree = g.tree(links);
     let model0 = Model::from_tree(&tree).unwrap();
     let cwd = g.pick_dir(&model0, 50);
-    let base = g.pick_dir(&model0, 55);
+    // (the base may be a link to a directory: a walk root is followed whatever the policy)
+    g.link_base_pct = 12;
+    let base = g.pick_base(&model0, 55, true);
+    let base_target = model0.resolve(&base, true).unwrap_or_else(|_| base.clone());
     // a cluster of faults in one directory (several consecutive error items, an error as the very
     // first or very last item of a listing)
     let mut cluster = false;
@@ -246,7 +249,12 @@ pub fn generate(rng: &mut Rng, tier: Tier, stats: &mut GenStats) -> Scenario {
         }
         cluster = true;
     }
-    plant_modes(&mut g, &mut tree, &[cwd.clone(), base.clone()]);
+    // (under a base that is a link every path is spelled through that link: permission faults are
+    // kept out of such scenarios, as they are kept out from beneath links in general, §10.3)
+    if model0.is_dir_node(&base) {
+        plant_modes(&mut g, &mut tree, &[cwd.clone(), base.clone()]);
+    }
+    let _ = base_target;
     let model = Model::from_tree(&tree).unwrap();
     let has_links = tree.iter().any(|n| matches!(n.kind, Kind::Link { .. }));
     let link = if has_links && (cluster || g.rng.chance(6, 10)) { Link::ReadTarget } else { Link::ReadFile };
